@@ -27,12 +27,10 @@ func (TrueSet) IsTrue() bool {
 	return true
 }
 
+// Less orders true against other values by Kind, as every other value type
+// does, so that exactly one of true < v, true = v and v < true holds.
 func (t TrueSet) Less(v Value) bool {
-	switch v.(type) {
-	case TrueSet, Number, Tuple, EmptySet:
-		return false
-	}
-	return true
+	return t.Kind() < v.Kind()
 }
 
 func (t TrueSet) Negate() Value {
